@@ -112,7 +112,7 @@ func signPrivateKeyEdDSA(message []byte, key jwk.Key) ([]byte, error) {
 	switch okpKey.Crv() {
 	case jwa.Ed25519:
 		ed25519Key := &ed25519.PrivateKey{}
-		if okpKey.Raw(ed25519Key) != nil {
+		if okpKey.Raw(ed25519Key) != nil || len(*ed25519Key) != ed25519.PrivateKeySize {
 			return nil, ErrKeyTypeMismatch
 		}
 		return ed25519.Sign(*ed25519Key, message), nil
